@@ -109,14 +109,14 @@ func (valdec mapDecoder) decodeListAsMap(dec *Decoder, p interface{}, tag byte) 
 		return
 	}
 	mp := reflect2.PtrOf(p)
-	count := dec.ReadInt()
-	valdec.t.UnsafeSet(mp, valdec.t.UnsafeMakeMap(count))
+	count := dec.readCount()
+	valdec.t.UnsafeSet(mp, valdec.t.UnsafeMakeMap(prealloc(count) >> 6))
 	dec.AddReference(p)
 	kp := valdec.kt.UnsafeNew()
 	vp := valdec.vt.UnsafeNew()
 	zp := valdec.vt.UnsafeNew()
 	vt := valdec.vt.Type1()
-	for i := 0; i < count; i++ {
+	for i := 0; i < count && dec.Error == nil; i++ {
 		valdec.convertKey(i, kp)
 		// forget the previous entry: a slice, map or pointer value must not reuse its memory
 		valdec.vt.UnsafeSet(vp, zp)
@@ -126,10 +126,26 @@ func (valdec mapDecoder) decodeListAsMap(dec *Decoder, p interface{}, tag byte) 
 	dec.Skip()
 }
 
+// hashable reports whether the decoded key can be used as a map key. A key
+// decoded into an interface{} may hold a list or a map, which Go cannot hash:
+// that is an error of the stream, not a reason to panic.
+func (valdec mapDecoder) hashable(dec *Decoder, kp unsafe.Pointer) bool {
+	if valdec.kt.Kind() != reflect.Interface {
+		return true
+	}
+	if k := *(*interface{})(kp); k != nil && !reflect.TypeOf(k).Comparable() {
+		if dec.Error == nil {
+			dec.Error = CastError{Source: reflect.TypeOf(k), Destination: valdec.kt.Type1()}
+		}
+		return false
+	}
+	return true
+}
+
 func (valdec mapDecoder) decodeMap(dec *Decoder, p interface{}) {
 	mp := reflect2.PtrOf(p)
-	count := dec.ReadInt()
-	valdec.t.UnsafeSet(mp, valdec.t.UnsafeMakeMap(count))
+	count := dec.readCount()
+	valdec.t.UnsafeSet(mp, valdec.t.UnsafeMakeMap(prealloc(count) >> 6))
 	dec.AddReference(p)
 	kp := valdec.kt.UnsafeNew()
 	vp := valdec.vt.UnsafeNew()
@@ -137,12 +153,15 @@ func (valdec mapDecoder) decodeMap(dec *Decoder, p interface{}) {
 	zvp := valdec.vt.UnsafeNew()
 	kt := valdec.kt.Type1()
 	vt := valdec.vt.Type1()
-	for i := 0; i < count; i++ {
+	for i := 0; i < count && dec.Error == nil; i++ {
 		// forget the previous entry: a slice, map or pointer must not reuse its memory
 		valdec.kt.UnsafeSet(kp, zkp)
 		valdec.vt.UnsafeSet(vp, zvp)
 		valdec.decodeKey(dec, kt, kp)
 		valdec.decodeValue(dec, vt, vp)
+		if !valdec.hashable(dec, kp) {
+			continue
+		}
 		valdec.t.UnsafeSetIndex(mp, kp, vp)
 	}
 	dec.Skip()
@@ -157,7 +176,7 @@ func (valdec mapDecoder) decodeObjectAsMap(dec *Decoder, p interface{}, tag byte
 	structInfo := dec.getStructInfo(index)
 	mp := reflect2.PtrOf(p)
 	count := len(structInfo.names)
-	valdec.t.UnsafeSet(mp, valdec.t.UnsafeMakeMap(count))
+	valdec.t.UnsafeSet(mp, valdec.t.UnsafeMakeMap(prealloc(count) >> 6))
 	dec.AddReference(p)
 	if fields := structInfo.fields; fields != nil {
 		for _, name := range structInfo.names {
